@@ -31,6 +31,11 @@ def scenarios(tier):
                           f'{("bounds-as-coordinate" if bounds == "coords" else "bounds") if bounds else "no-bounds"},positive_down={p},deep_to_shallow={o}'
                     out.append({'name': tag, 'fn': 'scn_normalize',
                                 'kwargs': {'attr': attr, 'dimcoord': dimcoord, 'bounds': bounds, 'p': p, 'o': o}})
+    # an auxiliary depth coordinate whose dimension carries its own index coordinate (layer numbers 0 .. n-1, increasing whatever the depths do)
+    for attr in ('down', 'up'):
+        for p, o in itertools.product(OPTS, OPTS):
+            out.append({'name': f'positive={attr!r},auxiliary with layer numbers on the dimension,positive_down={p},deep_to_shallow={o}', 'fn': 'scn_normalize',
+                        'kwargs': {'attr': attr, 'dimcoord': False, 'bounds': False, 'p': p, 'o': o, 'labels': True}})
     for p, o in itertools.product(OPTS, OPTS):
         out.append({'name': f'two coordinates sharing one dimension,positive_down={p},deep_to_shallow={o}',
                     'fn': 'scn_two_shared', 'kwargs': {'p': p, 'o': o}})
@@ -71,7 +76,7 @@ class Depth:
         # no zero crossing ambiguity needed; values arbitrary reals
 
 
-def _build(c, attr, dimcoord, bounds):
+def _build(c, attr, dimcoord, bounds, labels=False):
     n = sym_size(c, 'nk', 2)
     nx = sym_size(c, 'nx', 0)
     name = 'k' if dimcoord else 'zc'
@@ -83,6 +88,9 @@ def _build(c, attr, dimcoord, bounds):
         attrs['positive'] = attr
     if bounds:
         attrs['bounds'] = 'z_bnds'
+    if labels:
+        from pyvc.lib.numpy_ import INT64
+        add_var(ds, 'k', ('k',), NDArray((n,), lambda i: i[0], INT64), {'long_name': 'layer number'}, coord=True)
     add_var(ds, name, ('k',), dep.arr(), attrs, {'dtype': 'float64'}, coord=True)
     if bounds:
         add_var(ds, 'z_bnds', ('k', 'two'), sym_array(c, 'zb', (n, 2), 'real'), {'long_name': 'bounds'}, coord=(bounds == 'coords'))
@@ -123,9 +131,9 @@ def _check_unmodified(c, ds, snap, idx_of):
         c.check(f'input variable {k!r}: values are not modified', same)
 
 
-def scn_normalize(c, attr, dimcoord, bounds, p, o):
+def scn_normalize(c, attr, dimcoord, bounds, p, o, labels=False):
     it = new_interp()
-    ds, name, dep, n, nx = _build(c, attr, dimcoord, bounds)
+    ds, name, dep, n, nx = _build(c, attr, dimcoord, bounds, labels)
     f = fn(it, 'emsarray.operations.depth', 'normalize_depth_variables')
     # Skolem indexes
     k = c.fresh_int('kq')
